@@ -567,6 +567,22 @@ def _oracle_numeric(hs):
         return 'thb: hb_to_thb() @ thb_to_hb() is not the identity'
     if np.abs(A @ T - Rt).max() > 1e-10:
         return 'thb: represent_fine(truncate=False) @ thb_to_hb() differs from represent_fine(truncate=True) by %g' % np.abs(A @ T - Rt).max()
+    # hypotheses of the matrix-level Lean theorems (truncation_algebra, thb_partition_of_unity),
+    # checked on the real matrices: block shape of I - truncate_one_level(k); unit row sums and
+    # non-negativity of the 1-D prolongations
+    nt = np.cumsum(hs.numactive)
+    for k in range(hs.numlevels - 1):
+        Ak = np.eye(n) - hs.truncate_one_level(k).toarray()
+        Bk = hs.truncate_one_level(k, inverse=True).toarray() - np.eye(n)
+        if np.abs(Ak - Bk).max() > 1e-12:
+            return 'thb-shape: truncate_one_level(%d) and its inverse flavour are not I -/+ the same matrix' % k
+        rows, cols = np.nonzero(np.abs(Ak) > 0)
+        if len(rows) and (rows.min() < nt[k] or cols.max() >= nt[k]):
+            return 'thb-shape: I - truncate_one_level(%d) has a non-zero outside rows >= nt[k], columns < nt[k]' % k
+        for P in hs.hmesh.P[k]:
+            Pd = P.toarray()
+            if Pd.min() < -1e-12 or np.abs(Pd.sum(axis=1) - 1).max() > 1e-10:
+                return 'prolongation: a 1-D prolongation of level %d has a negative entry or a row sum != 1' % k
     return None
 
 
@@ -831,7 +847,7 @@ def run(ctx):
                         'a refine that raises leaves the space unchanged (the harness restores a copy taken before the call)']
     ctx.rule = ('exhaustive: 1-D uniform meshes with 2-4 cells, p 1-3, three 1-D knot vectors with interior multiplicity 2, 2-D 2x2 p 1-2; '
                 'disparity 1/2/inf; all sequences of <=2 (quick) / <=3 (thorough) refine calls where every call marks a non-empty subset of '
-                'all currently active cells (all subsets when there are <=6 active cells (2nd call quick: <=3; thorough 2nd/3rd call: <=5/<=3), otherwise a sample of 12/6 (thorough 40/16/3) incl. all-finest / first-of-each-level / all); '
+                'all currently active cells (all subsets when there are <=6 active cells (2nd call quick: <=3; thorough 2nd/3rd call: <=4/<=2), otherwise a sample of 12/6 (thorough 16/8/2) incl. all-finest / first-of-each-level / all); '
                 'random: 1-D (2-6 cells, p 1-4, interior multiplicities 1..p, non-uniform breakpoints), 2-D (2-3 cells per axis, p 1-3), '
                 '3-D (2x2x2, p 1-2), disparity 1/2/3/inf, 1-6 calls mixing refine (truncate on/off, 1-3 levels per call), refine_region predicates and '
                 'empty marks; containers set/frozenset/list/tuple with duplicates, shuffled, missing vs explicit-empty keys. '
@@ -886,7 +902,7 @@ def run(ctx):
 
     # ---- exhaustive stream
     # per call depth: (enumerate all non-empty subsets up to this many active cells, sample size otherwise)
-    plan = [(6, 12), (3, 6)] if quick else [(6, 40), (5, 16), (3, 3)]
+    plan = [(6, 12), (3, 6)] if quick else [(6, 16), (4, 8), (2, 2)]
     depth = len(plan)
     for ci, cfg in enumerate(exhaustive_configs(ctx)):
         header = cfg_header(cfg)
